@@ -56,6 +56,48 @@ prop("C18",
      "Generated schemas of both drafts are decorated at 1-4 random subschemas with documented non-asserting keywords (well-typed values) or unknown names (letter-case variants of every standard keyword, Go field names, random identifiers) carrying arbitrary JSON; Unmarshal and Resolve must accept and every instance must keep its verdict.",
      "The undecorated library verdict is the reference (C01/C02 tie it to the specification).")
 
+
+prop("C03",
+     "property-based testing (rapid): generated URI universes (target first, spelling second) vs. an independent RFC 3986/6901 resolver; fault injection in the Loader",
+     "Universes of 1-4 documents with trees of embedded resources ($id absolute/relative/../ ./ /abs-path/urn:), anchors scoped to their resource, canonical-id vs retrieval-URI aliases, BaseURI empty/absolute, Loader nil/present/faulty; every reference picks its target node first and one of ~10 spellings second, giving chains, diamonds and cycles. Routing instances carry markers so that a route is valid iff it ends at the designated node; verdicts are compared with the reference evaluator, whose resolution is cross-checked against the generator's intention. Planted dangling references and unavailable documents must make Resolve fail; the Loader log must show no repeated URI and nothing that no reference names; Resolve runs under a deadline.",
+     MODEL_NOTE + " Domain restrictions (a)-(g) of DESIGN.md 3.5 (places where the specification leaves the answer open).")
+prop("C04",
+     "property-based testing (rapid): reflection-built Go types and values, encoding/json as the encoder, inferred schema as the acceptor",
+     "Types are built with reflect.StructOf/SliceOf/ArrayOf/MapOf/PointerTo over all kinds and ~35 declared pool types (embedded by value/pointer/unexported, shadowing, std marshaler types), json tags from a grammar; values are filled by reflection (nil pointers/slices, extreme integers and floats, invalid UTF-8, interfaces). json.Marshal(&v) must validate against Resolve(ForType(T)); ForType may fail only for documented unsupported/cyclic types (own predicate). Two open known findings are generated only in dedicated 5% slices and attributed by class predicate.",
+     "Trusted: encoding/json; reflect. Exclusions are the property's own (nil maps, []byte, ',string', user marshalers, pointer-receiver marshalers in non-addressable positions).")
+prop("C06",
+     "property-based testing (rapid, history-based): generated dynamic-scope topologies x sequences of Validate calls vs. an explicit dynamic-scope model",
+     "1-5 resources (embedded or Loader-supplied) independently declare $dynamicAnchor/$anchor/nothing at their root or on a detached child; entry paths visit resources in random order through $ref / pointer-form $dynamicRef / allOf hops and end in a fragment, resource-relative or pointer-form $dynamicRef; 2-10 Validate calls share one Resolved and each verdict is compared with the reference evaluator (outermost declaring resource wins, otherwise plain $ref) and with a freshly resolved copy (no leak between calls).",
+     MODEL_NOTE)
+prop("C09",
+     "property-based testing (rapid): type-directed single-point mutation of valid encodings; implication oracle against encoding/json's strict decoder",
+     "Valid encodings of generated values are mutated at a position chosen by walking type and document in parallel (drop a required/optional key, add an undeclared key, inadmissible JSON type, integer past either bound of its sized kind, negative for unsigned, fraction for integer, null, wrong array length, 1e300 for float32) or freely; whenever the inferred schema accepts, Decoder.DisallowUnknownFields must decode into new(T); mutations that break a rule the property names must be rejected.",
+     "Trusted: encoding/json's decoder as the definition of 'decodes'. Integers are normalised to the property's domain (plain spelling, 64-bit range of the position's type).")
+prop("C10",
+     "property-based testing (rapid) for robustness: hostile inputs to every entry point under recover() and a deadline, with a per-case journal for fatal errors; native fuzzing in the thorough tier",
+     "Four targets: near-valid and hostile schema bytes through Unmarshal/Resolve/Validate/ApplyDefaults; wild Schema graphs (shared/cyclic pointers, nil children, malformed URIs/regexps, conflicting fields) with odd BaseURIs and loaders; ForType on arbitrary types incl. recursive and unsupported ones; C03 universes with failing, document-swapping and self-returning loaders. Instances of any shape in any Go representation. A panic, a 20 s overrun or a dead process (journal) is a violation.",
+     "Validate is only called on graphs without an in-place reference cycle (the property's proviso; decided through the verif hook VerifRefs, used as a guard, never as an oracle). Loader universes are finite by construction.")
+prop("C13",
+     "schedule exploration by the Go runtime under the race detector (-race, halt_on_error) over rapid-generated workloads + sequential-equivalence oracle",
+     "Generated workloads: shared Resolved values (incl. a $dynamicRef topology behind a shared caching Loader), shared Schema trees, shared types and TypeSchemas; 2-8 goroutines x 1-12 operations (Validate, ApplyDefaults on private copies, Marshal, CloneSchemas, Resolve, ForType) released by one barrier, always on a fresh, untouched world so lazily initialised state is first touched by the racing goroutines. Any race report kills the process (journalled workload = replay); every result must equal the same call executed alone.",
+     "Interleavings are sampled by the scheduler, not enumerated; the race detector is happens-before based, which makes it insensitive to actual timing for accesses that do occur. This is the weakest claim of the 20 (see DESIGN.md section 6).")
+prop("C14",
+     "property-based testing (rapid, history-based) with twin-object purity snapshots, repetition, and fresh-process digest comparison",
+     "Histories of 3-12 Resolve/Marshal/Validate calls over one Schema (document of either draft biased to multi-entry maps, or a Loader universe) and three instances in mixed representations; after every call the Schema tree, every Schema the Loader returned and every instance must be DeepEqual to independently built twins; repeated calls must agree; the driver re-runs the same seed in 3 (quick) / 8 (thorough) fresh processes and compares per-case digests (case hash guards the harness's own determinism, result hash is the property).",
+     "Map iteration order and hash seeds are sampled, not enumerated. Error texts are not compared, only error-ness.")
+prop("C16",
+     "property-based testing (rapid): metamorphic and differential oracles for ForType (twice-equal, pointer-disjointness, For(*T) vs For(T), encoding/json field order) over generated types and options",
+     "For generated types (incl. recursive, unsupported, repeated) and options (TypeSchemas overriding pool types that occur plain, by pointer or embedded; IgnoreInvalidTypes) the check demands: equal results of two calls, pairwise disjoint Schema pointer sets, untouched TypeSchemas, Resolve accepts, For(*T)=For(T)+null, properties key sequence and required set equal to the harness's own enumeration of encoding/json's fields (cross-checked against json.Marshal of a fully populated value), overrides present wherever their type occurs, error for recursive types within a deadline, error or dropping for unsupported kinds.",
+     "Trusted: encoding/json for field order; the harness's own tag parser and dominance rule (checked against encoding/json on every case).")
+prop("C17",
+     "property-based testing (rapid): pointers generated by an own RFC 6901 escaper / RFC 3986 fragment encoder over a reflection-derived keyword table; marker acceptance vectors vs. the reference pointer walk; negative probes",
+     "A host under $defs/definitions populates every subschema-bearing keyword found by reflection (single, array, map valued, items/dependencies unions) with hostile keys; 2-6 probes per document, positive ones must select exactly the addressed subschema (acceptance of every marker compared with the reference evaluator, whose walk is cross-checked against the generator's location), negative ones (unknown/absent/non-schema keyword, missing key, bad index forms, pointer stopping at a container, bad escape) must make Resolve fail.",
+     MODEL_NOTE)
+prop("C20",
+     "property-based testing (rapid): clone-equality, pointer-disjointness and mutation-independence over reflection-generated Schema trees",
+     "Schema trees with every subschema-bearing field populated (nil/empty/nested) are cloned; bytes and DeepEqual must agree, pointer sets must be disjoint, schema slices/maps must be distinct containers, a parent holding both must resolve, and after each of 1-6 generated mutations of one tree the other must still be DeepEqual to an independently built reference.",
+     "Shared non-schema slices/maps are only replaced, never mutated in place (documented sharing).")
+
 def main():
     hooks_commit = subprocess.run(["git", "-C", "/repo", "log", "--format=%H", "-1", "--", "jsonschema/export_verif.go"],
                                   capture_output=True, text=True).stdout.strip()
